@@ -58,13 +58,24 @@ _LAZY_SIBLINGS = {
         {"op": "return", "e": 0}]],
     "params": {"kinds": {}},
 }
+# faults of builtin exception classes (TypeError, AssertionError, KeyError, RuntimeError, ValueError) coming from every kind
+# of future: the task receives the very same instance, whatever its class
+_FAULT_CLASSES = {
+    "roots": [[{"op": "try", "body": [{"op": "yield", "x": "a%d" % i, "s": s}], "x": "e%d" % i, "handler": []}
+               for i, s in enumerate([{"new": {"error": 1}}, {"new": {"lazy": {"err": 2}}}, {"new": {"item": [0, 1, {"err": 3}]}},
+                                      {"new": {"task": [{"op": "raise", "e": 4}]}}, {"new": {"error": 5}}, {"new": {"item": [1, 2, {"set": 1}]}},
+                                      {"tuple": [{"new": {"const": 1}}, {"new": {"lazy": {"err": 7}}}]}, {"new": {"lazy": {"err": 1}}}])]
+              + [{"op": "yield", "x": "z", "s": {"new": {"error": 1}}}, {"op": "return", "e": 1}]],
+    "params": {"kinds": {"1": {"raise": [0, 1007]}}, "fault_classes": True},
+}
 _EXTRA = [
     (2, dict(_base, name="vary-bad", p_bad=0.3, p_vary_bad=1.0, p_try=0.3)),
     (2, dict(_base, name="base-errors", p_base_err=1.0, p_raise=0.15, p_item_err=0.2, p_flush_raise=0.5, p_try=0.3, p_errfut=0.1)),
     (1, dict(_base, name="reuse", p_again=0.6, p_let=0.35, p_old=0.5, p_errfut=0.15, p_try=0.25)),
+    (2, dict(_base, name="fault-classes", p_fault_classes=1.0, p_errfut=0.2, p_lazy=0.2, p_lazy_err=0.7, p_item_err=0.25, p_flush_raise=0.4, p_try=0.3)),
     (2, dict(_base, name="lazy-siblings", p_lazy=0.45, p_lazy_err=0.4, p_errfut=0.3, p_item=0.08, p_const=0.15, p_try=0.4, p_old=0.3, p_let=0.2, budget=10)),
 ]
 
 mach.install(globals(), "C02", ("EvStep", "EvGot", "EvDone"), ("C02:",), PROFILES, n_quick=300, n_thorough=25000,
-             nontrivial=_nontrivial, level="proof", corpus=_CORPUS + [_NONFUTURES, _LAZY_SIBLINGS],
-             extra_gen=mach.extra_profiles(_EXTRA, 80, 5500))
+             nontrivial=_nontrivial, level="proof", corpus=_CORPUS + [_NONFUTURES, _LAZY_SIBLINGS, _FAULT_CLASSES],
+             extra_gen=mach.extra_profiles(_EXTRA, 100, 7000))
